@@ -105,16 +105,16 @@ macro_rules! sweep_arr { ($more:expr, |$T:ident| $body:expr) => {{
     } else { match (at_type!($T, i64, $body), at_type!($T, u8, $body), at_type!($T, f64, $body)) {
         (Ok(ri), Ok(ru), Ok(rf)) => {
             let mut d = cross_type_arr(&ri, &ru, &rf);
-            if d.is_none() && $more >= 2 {
+            if d.is_none() && $more & 4 != 0 {
                 d = extra_arr::<i8>(&ri, at_type!($T, i8, $body));
                 if d.is_none() { d = extra_arr::<bool>(&ri, at_type!($T, bool, $body)); }
                 if d.is_none() { d = extra_arr::<String>(&ri, at_type!($T, String, $body)); }
                 if d.is_none() { d = extra_arr::<f32>(&ri, at_type!($T, f32, $body)); }
             }
-            if d.is_none() && $more >= 1 {
+            if d.is_none() && $more & 1 != 0 {
                 d = extra_arr::<T3>(&ri, at_type!($T, T3, $body));
                 if d.is_none() { d = extra_arr::<T3b>(&ri, at_type!($T, T3b, $body)); }
-                if d.is_none() { d = extra_arr::<TW>(&ri, at_type!($T, TW, $body)); }
+                if d.is_none() && $more & 2 != 0 { d = extra_arr::<TW>(&ri, at_type!($T, TW, $body)); }
                 if d.is_some() { d = d.map(|d| format!("(LAYOUT) {d}")); }
                 LAYOUT_RUNS.fetch_add(1, Ordering::Relaxed);
             }
@@ -181,16 +181,16 @@ macro_rules! sweep_list { ($more:expr, |$T:ident| $body:expr) => {{
     } else { match (at_type!($T, i64, $body), at_type!($T, u8, $body), at_type!($T, f64, $body)) {
         (Ok(ri), Ok(ru), Ok(rf)) => {
             let mut d = cross_type_list(&ri, &ru, &rf);
-            if d.is_none() && $more >= 2 {
+            if d.is_none() && $more & 4 != 0 {
                 d = extra_list::<i8>(&ri, at_type!($T, i8, $body));
                 if d.is_none() { d = extra_list::<bool>(&ri, at_type!($T, bool, $body)); }
                 if d.is_none() { d = extra_list::<String>(&ri, at_type!($T, String, $body)); }
                 if d.is_none() { d = extra_list::<f32>(&ri, at_type!($T, f32, $body)); }
             }
-            if d.is_none() && $more >= 1 {
+            if d.is_none() && $more & 1 != 0 {
                 d = extra_list::<T3>(&ri, at_type!($T, T3, $body));
                 if d.is_none() { d = extra_list::<T3b>(&ri, at_type!($T, T3b, $body)); }
-                if d.is_none() { d = extra_list::<TW>(&ri, at_type!($T, TW, $body)); }
+                if d.is_none() && $more & 2 != 0 { d = extra_list::<TW>(&ri, at_type!($T, TW, $body)); }
                 if d.is_some() { d = d.map(|d| format!("(LAYOUT) {d}")); }
                 LAYOUT_RUNS.fetch_add(1, Ordering::Relaxed);
             }
@@ -685,15 +685,15 @@ fn gen_part3(thorough: bool, out: &mut dyn FnMut(String)) {
         (vec![1025, 1, 1025], 1, true), (vec![3, 1, 400_001], 1, false), (vec![1024, 2, 1024], 1, false), (vec![1, 1031, 1033], 0, false),
         (vec![33, 1, 31, 1033], 1, true), (vec![2, 2, 1, 262_147], 2, true), (vec![1, 16, 65, 1009], 0, false), (vec![64, 128, 129, 1], 3, false),
         // short pieces, giant total
-        (vec![17, 65_537], 0, true), (vec![600, 2, 1000], 1, true), (vec![3, 400_001], 0, false), (vec![400_001, 3], 1, false), (vec![16, 65, 16, 64], 2, false), (vec![65, 129, 127], 0, false)];
+        (vec![17, 65_537], 0, true), (vec![600, 2, 1000], 1, false), (vec![3, 400_001], 0, false), (vec![400_001, 3], 1, false), (vec![16, 65, 16, 64], 2, false), (vec![65, 129, 127], 0, false)];
     for (q, (tpl, ax, quick)) in joins.iter().enumerate() {
         let (nd, ax) = (tpl.len(), *ax);
         let with = |len: usize, o: i64| { let mut t = tpl.clone(); t[ax] = len; io(&t, o) };
         let a = io(tpl, 0);
         if thorough || *quick {
             // both orders: the giant pieces come from the first / the second input
-            if q % 2 == 0 || thorough { out(format!("g append {a} {} {ax}", with(1 + q % 2, off))); }
-            if q % 2 == 1 || thorough { out(format!("g append {} {a} {ax}", with(1 + q % 3, off))); }
+            if q % 2 == 0 || thorough { out(format!("g append {a} {} {ax}", with(if thorough { 2 } else { 1 }, off))); }
+            if q % 2 == 1 || thorough { out(format!("g append {} {a} {ax}", with(if thorough { 1 + q % 3 } else { 1 }, off))); }
         }
         if thorough {
             out(format!("g concatenate {a};{};{} {ax}", with(1, off), with(tpl[ax], 2 * off)));
@@ -708,9 +708,9 @@ fn gen_part3(thorough: bool, out: &mut dyn FnMut(String)) {
     out(format!("g concatenate {};{};{} 0", io(&[M], 0), io(&[70], off), io(&[M + 1], 2 * off)));
     out(format!("g vstack {v};{}", io(&[M + 5], off)));
     out(format!("g append {v} {} none", io(&[2, 3], off)));
-    out(format!("g dstack {};{}", io(&[1024, 1025], 0), io(&[1024, 1025], off)));
     out(format!("g append_self {v} 0"));
     if thorough {
+        out(format!("g dstack {};{}", io(&[1024, 1025], 0), io(&[1024, 1025], off)));
         out(format!("g stack {v};{} 0", io(&[M + 5], off))); out(format!("g stack {};{} 1", io(&[M + 5, 1], 0), io(&[M + 5, 1], off)));
         out(format!("g hstack {v};{};{}", io(&[M], off), io(&[3], 2 * off))); out(format!("g row_stack {};{}", io(&[1, M + 5], 0), io(&[2, M + 5], off)));
         out(format!("g column_stack {};{}", io(&[M + 5], 0), io(&[M + 5, 1], off))); out(format!("g concatenate {v};{};{v} none", io(&[3, 3], off)));
@@ -926,7 +926,8 @@ fn diff_detail(obs: &str, want: &str) -> String {
 fn shape_elems(a: &str) -> usize { let body = a.strip_prefix('i').unwrap_or(a); let sh = body.split(|c| c == '+' || c == ':').next().unwrap_or("-"); parse_usize_list(sh).iter().product() }
 fn elems_of(s: &str) -> usize { if s == "-" { 0 } else { s.split(';').map(shape_elems).sum() } }
 
-/// the real call: i64 / u8 / f64 (+ i8 / bool / String / f32 when `more`), both receivers where they exist, the i64 call twice
+/// the real call: i64 / u8 / f64 (`more` flags: 4 = + i8 / bool / String / f32, 1 = + the 12- and 3-byte tuples, 2 = + the 32-byte
+/// `Tuple2<String,i32>`), both receivers where they exist, the i64 call twice
 fn run_call(op: &str, args: &[&str], more: u8) -> Option<String> {
     let ax_opt = |s: &str| -> Option<usize> { parse_opt(s) };
     let src = *args.first()?;
@@ -984,7 +985,7 @@ fn exec_call(op: &str, args: &[&str], expected: &str) -> Option<Verdict> {
     // and the three odd-layout element types (12 / 3 / 32 bytes) with them; between 600 and 6000 input elements the odd layouts alone,
     // one case line in four (a tile of `64 / size_of::<T>()` elements only matters once a blocked path is entered)
     let more: u8 = { let n = elems_of(src) + if op == "append" { elems_of(args[1]) } else { 0 }; let h = args.iter().map(|a| a.len()).sum::<usize>();
-        if n <= 600 { if h % 3 == 0 { 2 } else { 0 } } else if n <= 6000 && h % 4 == 0 { 1 } else { 0 } };
+        if n <= 600 { if h % 3 == 0 { 7 } else { 0 } } else if n <= 6000 && h % 4 == 0 { 3 } else { 0 } };
     let obs = run_call(op, args, more)?;
     match oracle(op, args) {
         None => { ORACLE_SILENT.fetch_add(1, Ordering::Relaxed); }
@@ -1011,8 +1012,9 @@ fn exec_native(args: &[&str], expected: &str) -> Option<Verdict> {
     ORACLE_ONLY.fetch_add(1, Ordering::Relaxed);
     let elems = elems_of(rest[0]);
     LITE.with(|l| l.set(elems > 5000));
-    // the odd-layout element types on one reference-judged line in four up to 40 000 elements
-    let obs = run_call(op, rest, if elems <= 40000 && rest.iter().map(|a| a.len()).sum::<usize>() % 4 == 0 { 1 } else { 0 });
+    // the odd-layout element types on one reference-judged line in four up to 40 000 elements (the 32-byte `Tuple2<String,i32>` up to
+    // 6000: the crate clones the whole array for every piece it cuts)
+    let obs = run_call(op, rest, if elems <= 40000 && rest.iter().map(|a| a.len()).sum::<usize>() % 4 == 0 { if elems <= 6000 { 3 } else { 1 } } else { 0 });
     LITE.with(|l| l.set(false));
     let obs = obs?;
     if obs == want || (class_of(&obs) == "err" && want == "err") { return Some(Verdict::Match(format!("ok native ({} bytes as the harness-native reference)", obs.len()))); }
@@ -1140,7 +1142,7 @@ fn exec_line(op: &str, args: &[&str], expected: &str) -> Option<Verdict> {
             if !matches!(v, Verdict::Match(_)) { return Some(v); }
             Z_CALLS.fetch_add(1, Ordering::Relaxed);
             ZMODE.with(|z| z.set(true));
-            let obs = run_call(args[0], &args[1..], 0);
+            let obs = run_call(args[0], &args[1..], 0);   // (the flags are not consulted in z mode)
             ZMODE.with(|z| z.set(false));
             Some(compare_default(obs?, expected))
         }
